@@ -73,6 +73,7 @@ TPop    == Is("Pop") /\ Pop /\ StateOK
 TPopU   == Is("PopU") /\ PopUnderflow /\ l + 1 <= Len(Tr) /\ Tr[l + 1].e = "Fatal"
 TTop    == Is("Top") /\ TopIs(E.v) /\ Same
 TSetBol == Is("SetBol") /\ SetBol(E.v = 1) /\ StateOK
+TSetLineno == Is("SetLineno") /\ SetLineno(E.v) /\ E.got = E.v /\ StateOK
 TEof    == Is("Eof") /\ (IF opt.userwrap THEN EofAct(E.k) ELSE AtEof(E.k)) /\ StateOK
 \* yylex() returned 0: either an <<EOF>> action just did that, or the default one does
 TEnd    == Is("End") /\ (IF phase = "done" THEN Same ELSE IF opt.userwrap THEN EofAct(0) ELSE AtEof(0))
@@ -112,7 +113,7 @@ TReopen    == Is("Reopen") /\ Reopen(E.f + 1, E.bytes) /\ BufOK
 TNext == \/ TReset \/ TCall \/ TRead \/ TTok \/ TReject \/ TActEnd \/ TRet \/ TLess \/ TMore \/ TUnput \/ TInput
          \/ TBegin \/ TPush \/ TPop \/ TPopU \/ TTop \/ TSetBol \/ TEof \/ TEnd \/ TFin \/ TFatal
          \/ TWrapEnter \/ TWrapRet \/ TSetYyin \/ TNewBuf \/ TNewMem \/ TScanFail \/ TSwitch \/ TPushBuf
-         \/ TPopBuf \/ TFlush \/ TDelete \/ TRestart \/ TReopen \/ TCounts \/ TReadFault \/ TInitFail
+         \/ TSetLineno \/ TPopBuf \/ TFlush \/ TDelete \/ TRestart \/ TReopen \/ TCounts \/ TReadFault \/ TInitFail
 TSpec == TInit /\ [][TNext]_tvars
 
 Accepted == TLCGet("stats").diameter - 1 = Len(Tr)
